@@ -84,7 +84,7 @@ func (ie *ImageExtractor) Extract(node *html.Node) webdoc.Element {
 			ie.processPicture(image)
 		}
 
-		figCaption := domutil.GetFirstElementByTagName(node, "figcaption")
+		figCaption := ie.findVisibleFigCaption(node)
 		if figCaption == nil {
 			figCaption = ie.createFigCaption(node)
 		} else {
@@ -170,6 +170,32 @@ func (ie *ImageExtractor) findRealFigureImage(figure *html.Node) *html.Node {
 	}
 
 	return nil
+}
+
+// findVisibleFigCaption returns the first <figcaption> of the figure that is not
+// hidden itself nor placed inside a hidden element, nil if there is none.
+func (ie *ImageExtractor) findVisibleFigCaption(figure *html.Node) *html.Node {
+	var figCaption *html.Node
+	domutil.WalkNodes(figure, func(node *html.Node) bool {
+		if figCaption != nil || node.Type != html.ElementNode {
+			return false
+		}
+
+		if node != figure {
+			if !domutil.IsProbablyVisible(node) {
+				return false
+			}
+
+			if dom.TagName(node) == "figcaption" {
+				figCaption = node
+				return false
+			}
+		}
+
+		return true
+	}, nil)
+
+	return figCaption
 }
 
 func (ie *ImageExtractor) processPicture(picture *html.Node) {
